@@ -10,6 +10,11 @@ c05.step  <unlinkFirst> <removeStale> <dir> read <obj>                      -> o
 c05.step  <unlinkFirst> <removeStale> <dir> save <obj> <meshOnly>           -> ok <dir after>
 c05.step  <unlinkFirst> <removeStale> <dir> crash <obj> <meshOnly> <k> <torn> -> ok <dir after>
 c05.steps <unlinkFirst> <removeStale> <obj> <meshOnly>                      -> ok <n> (R|W) <file> …
+plan := <n> ((R|W) <file>)*          the whole traced effect list of one save, sentinel steps included
+c05.good  <obj> <meshOnly> <plan>                                           -> ok <0|1>   (shape `wrap mid` and `GoodMid mid`)
+c05.gstep <dir> read <obj> <plan>                                           -> ok <dir after> <dir returned>
+c05.gstep <dir> save <obj> <meshOnly> <plan>                                -> ok <dir after>
+c05.gstep <dir> crash <obj> <meshOnly> <k> <torn> <plan>                    -> ok <dir after>
 ``` -/
 namespace Femio.C05
 open Femio.Proto
@@ -34,7 +39,45 @@ def showContent : Option Content → String
   | none => "a" | some .torn => "t" | some (.ok n) => toString n
 def showDir (d : Dir) : String := String.intercalate " " (files.map fun f => showContent (d f))
 
+def fileP : P File := do
+  let t ← tok
+  match files.find? (fun f => fileName f = t) with | some f => pure f | none => failure
+
+def planP (tag : Nat) : P (List Step) := listOf (do
+  let k ← tok; let f ← fileP
+  if k = "W" then pure (Step.write f tag) else if k = "R" then pure (Step.remove f) else failure)
+
+/-- the middle of a traced plan, if it has the shape `wrap mid tag` -/
+def unwrap (tag : Nat) (plan : List Step) : Option (List Step) :=
+  match plan with
+  | .remove .sentinel :: rest =>
+    if rest.getLast? = some (.write .sentinel tag) then some rest.dropLast else none
+  | _ => none
+
 def handle : List String → Option String
+  | "c05.good" :: rest => do
+    let (x, mo, plan) ← run (do let x ← objP; let mo ← bool; let p ← planP x.tag; pure (x, mo, p)) rest
+    match unwrap x.tag plan with
+    | some mid => some s!"ok {showBool (GoodMid mid x mo)}"
+    | none => some "ok 0"
+  | "c05.gstep" :: rest => do
+    let (d, rest') ← (do let d ← dirP; let rest ← get; set ([] : List String); pure (d, rest) : P _).run rest |>.map (·.1)
+    match rest' with
+    | "read" :: t => do
+      let (src, plan) ← run (do let x ← objP; let p ← planP x.tag; pure (x, p)) t
+      let mid ← unwrap src.tag plan
+      let r := readDirG d src mid
+      some s!"ok {showDir r.2} {showDir r.1}"
+    | "save" :: t => do
+      let (x, mo, plan) ← run (do let x ← objP; let mo ← bool; let p ← planP x.tag; pure (x, mo, p)) t
+      let mid ← unwrap x.tag plan
+      some s!"ok {showDir (gstep d (.save x mo mid))}"
+    | "crash" :: t => do
+      let (x, mo, k, torn, plan) ← run (do
+        let x ← objP; let mo ← bool; let k ← nat; let tn ← bool; let p ← planP x.tag; pure (x, mo, k, tn, p)) t
+      let mid ← unwrap x.tag plan
+      some s!"ok {showDir (gstep d (.crash x mo mid k torn))}"
+    | _ => some "err bad-op"
   | "c05.step" :: rest => do
     let (cfg, d, rest') ← (do
       let u ← bool; let r ← bool; let d ← dirP; let rest ← get; set ([] : List String); pure ((⟨u, r⟩ : Cfg), d, rest) : P _).run rest |>.map (·.1)
